@@ -328,7 +328,8 @@ class Rule(
         return replace(
             configuration,
             rule_object_anything=False,
-            modules_to_check=modules_to_check_without_parent_and_submodule_combinations,
+            # the subjects stay as given: a submodule listed next to its parent is redundant, but it still has
+            # to be looked up, otherwise a name that does not exist would go unnoticed
             modules_to_check_against=modules_to_check_without_parent_and_submodule_combinations,
             except_present=True,
         )
